@@ -83,10 +83,11 @@ var (
 	c26Keys  []*ecdsa.PrivateKey
 	c26Addrs []common.Address
 
-	c26DepositAddr = common.HexToAddress("0x00000000219ab540356cBB839Cbe05303d7705Fa")
-	c26FreshAddr   = common.HexToAddress("0xc01bc01bc01bc01bc01bc01bc01bc01bc01b0001") // absent from every pre-state
-	c26Gwei        = big.NewInt(1_000_000_000)
-	c26Ether       = new(big.Int).Exp(big.NewInt(10), big.NewInt(18), nil)
+	c26DepositAddr  = common.HexToAddress("0x00000000219ab540356cBB839Cbe05303d7705Fa")
+	c26FreshAddr    = common.HexToAddress("0xc01bc01bc01bc01bc01bc01bc01bc01bc01b0001") // absent from every pre-state
+	c26ObserverAddr = common.HexToAddress("0x0b5e000000000000000000000000000000000001")
+	c26Gwei         = big.NewInt(1_000_000_000)
+	c26Ether        = new(big.Int).Exp(big.NewInt(10), big.NewInt(18), nil)
 )
 
 const c26NumKeys = 5
@@ -136,6 +137,8 @@ type c26Case struct {
 	txs     []*types.Transaction
 	refTxs  []*refevm.Tx
 	txNotes []string
+	remake  []func(gas uint64) // re-sign transaction i with another gas limit
+	txNeed  []uint64           // max(intrinsic, floor) of transaction i
 	world   *ep.World
 	classes []string
 }
@@ -216,7 +219,7 @@ func c26Draw(rt *rapid.T, d c26Domain) *c26Case {
 		others = append(others, ep.Target{Kind: ep.TgtEOA, Addr: a})
 	}
 	w, err := ep.DrawWorld(rt, ep.WorldConfig{Fork: c26EpFork(c.fork), MaxContracts: d.maxContracts, RawEntryPct: d.rawEntryPct,
-		Gen: ep.GenConfig{Others: others}})
+		Gen: ep.GenConfig{Others: others, EffectBias: ep.Uniform(rt, "effect-bias", 2) == 0, MaxBlocks: c26Pick(rt, "max-blocks", 6, 8, 12)}})
 	if err != nil {
 		rt.Fatalf("VERIF-HARNESS-BUG: evmprog: %v", err)
 	}
@@ -272,12 +275,22 @@ func c26Draw(rt *rapid.T, d c26Domain) *c26Case {
 		c.put(params.ConsolidationQueueAddress, 1, big.NewInt(0), params.ConsolidationQueueCode, nil)
 	}
 
+	// ---- observer: forwards the transaction to contract 0 and makes the outcome
+	// (success flag, return data) part of the post-state and of the logs
+	c.put(c26ObserverAddr, 1, big.NewInt(0), c26Observer(w.Contracts[0].Addr),
+		map[common.Hash]common.Hash{{}: common.BigToHash(big.NewInt(7)), common.BigToHash(big.NewInt(1)): common.BigToHash(big.NewInt(7))})
+
+	// ---- deposit contract stand-in: LOG1(DepositEvent topic, calldata)
+	if d.systemCode {
+		c.put(c26DepositAddr, 1, big.NewInt(0), c26DepositEmitter(), nil)
+	}
+
 	// ---- environment
 	number := uint64(1 + ep.Uniform(rt, "number", 600))
 	coinbase := c26Pick(rt, "coinbase", c26FreshAddr, c26FreshAddr, c26Addrs[0], common.Address(w.Contracts[0].Addr),
 		common.Address(ep.EOAAddr), common.Address(ep.PrecompileAddr(3)))
 	baseFee := c26Pick(rt, "basefee", big.NewInt(7), big.NewInt(7), big.NewInt(1000), big.NewInt(1_000_000_000), big.NewInt(0))
-	gasLimit := c26Pick(rt, "block-gaslimit", uint64(30_000_000), 30_000_000, 30_000_000, 60_000_000, 1_000_000, 150_000)
+	gasLimit := c26Pick(rt, "block-gaslimit", uint64(30_000_000), 30_000_000, 30_000_000, 30_000_000, 36_000_000, 60_000_000, 3_000_000, 400_000)
 	excess := c26Pick(rt, "excess-blob-gas", uint64(0), 0, 393216, 10_000_000, 60_000_000)
 	var random common.Hash
 	copy(random[:], rapid.SliceOfN(rapid.Byte(), 32, 32).Draw(rt, "random"))
@@ -351,9 +364,12 @@ func (c *c26Case) drawTx(rt *rapid.T, d c26Domain, idx int, nonces []uint64, blo
 		typeW[3] = 2
 	}
 	if d.setCodeTxs {
-		typeW[4] = 3 // on Cancun this is the "unsupported type" defect
-		if fork == refevm.Cancun && !d.defects {
-			typeW[4] = 0
+		typeW[4] = 3
+		if fork == refevm.Cancun { // there this is the "unsupported type" defect
+			typeW[4] = 1
+			if !d.defects {
+				typeW[4] = 0
+			}
 		}
 	}
 	typ := c26Weighted(rt, "tx-type", typeW)
@@ -362,7 +378,10 @@ func (c *c26Case) drawTx(rt *rapid.T, d c26Domain, idx int, nonces []uint64, blo
 	var to *common.Address
 	var toNote string
 	{
-		wts := []int{10, 3, 2, 1, 2, 0, 0, 0}
+		wts := []int{6, 3, 2, 1, 2, 0, 0, 0, 0, 0, 7}
+		if d.systemCode {
+			wts[8], wts[9] = 1, 1
+		}
 		if d.creates && typ != refevm.TxBlob && typ != refevm.TxSetCode {
 			wts[5] = 4
 		}
@@ -396,6 +415,15 @@ func (c *c26Case) drawTx(rt *rapid.T, d c26Domain, idx int, nonces []uint64, blo
 		case 7:
 			a := c26Pick(rt, "to-system", params.BeaconRootsAddress, params.HistoryStorageAddress, params.WithdrawalQueueAddress, params.ConsolidationQueueAddress)
 			to, toNote = &a, "system"
+		case 8: // a well-formed EIP-7002 / EIP-7251 request (56 / 96 bytes of calldata, fee attached)
+			a := c26Pick(rt, "to-request", params.WithdrawalQueueAddress, params.ConsolidationQueueAddress)
+			to, toNote = &a, "request"
+		case 9:
+			a := c26DepositAddr
+			to, toNote = &a, "deposit"
+		case 10:
+			a := c26ObserverAddr
+			to, toNote = &a, "observer"
 		}
 	}
 
@@ -422,6 +450,14 @@ func (c *c26Case) drawTx(rt *rapid.T, d c26Domain, idx int, nonces []uint64, blo
 		}
 	} else {
 		switch toNote {
+		case "request":
+			n := 56
+			if *to == params.ConsolidationQueueAddress {
+				n = 96
+			}
+			data = rapid.SliceOfN(rapid.Byte(), n, n).Draw(rt, "request-data")
+		case "deposit":
+			data = c26DepositData(rt, c)
 		case "system":
 			// lengths the request contracts care about: 0 (fee query), 56 (7002), 96 (7251), 32 (4788/2935 getters)
 			n := c26Pick(rt, "sys-data-len", 0, 32, 56, 96, 55)
@@ -574,6 +610,10 @@ func (c *c26Case) drawTx(rt *rapid.T, d c26Domain, idx int, nonces []uint64, blo
 		value = new(big.Int).Mul(c26Ether, big.NewInt(2_000_000)) // more than any sender owns
 	}
 
+	if toNote == "request" {
+		value = c26Pick(rt, "request-fee", big.NewInt(1), big.NewInt(1), big.NewInt(2), big.NewInt(1_000_000_000), big.NewInt(0))
+	}
+
 	// nonce
 	nonce := nonces[si]
 	nonceDefect := false
@@ -635,31 +675,37 @@ func (c *c26Case) drawTx(rt *rapid.T, d c26Domain, idx int, nonces []uint64, blo
 			gas = need + 3_000_000
 		}
 	}
-	ref.GasLimit = gas
-
 	// sign the geth transaction
-	var inner types.TxData
 	chainID := big.NewInt(1)
-	switch typ {
-	case refevm.TxLegacy:
-		inner = &types.LegacyTx{Nonce: nonce, GasPrice: feeCap, Gas: gas, To: to, Value: value, Data: data}
-	case refevm.TxAccess:
-		inner = &types.AccessListTx{ChainID: chainID, Nonce: nonce, GasPrice: feeCap, Gas: gas, To: to, Value: value, Data: data, AccessList: al}
-	case refevm.TxDynamic:
-		inner = &types.DynamicFeeTx{ChainID: chainID, Nonce: nonce, GasTipCap: tipCap, GasFeeCap: feeCap, Gas: gas, To: to, Value: value, Data: data, AccessList: al}
-	case refevm.TxBlob:
-		inner = &types.BlobTx{ChainID: uint256.NewInt(1), Nonce: nonce, GasTipCap: uint256.MustFromBig(tipCap), GasFeeCap: uint256.MustFromBig(feeCap),
-			Gas: gas, To: *to, Value: uint256.MustFromBig(value), Data: data, AccessList: al, BlobFeeCap: uint256.MustFromBig(blobFeeCap), BlobHashes: blobHashes}
-	case refevm.TxSetCode:
-		inner = &types.SetCodeTx{ChainID: uint256.NewInt(1), Nonce: nonce, GasTipCap: uint256.MustFromBig(tipCap), GasFeeCap: uint256.MustFromBig(feeCap),
-			Gas: gas, To: *to, Value: uint256.MustFromBig(value), Data: data, AccessList: al, AuthList: auths}
-	}
-	tx, err := types.SignNewTx(key, types.LatestSignerForChainID(chainID), inner)
-	if err != nil {
-		rt.Fatalf("VERIF-HARNESS-BUG: sign: %v", err)
-	}
-	c.txs = append(c.txs, tx)
+	slot := len(c.txs)
+	c.txs = append(c.txs, nil)
 	c.refTxs = append(c.refTxs, ref)
+	c.txNeed = append(c.txNeed, need)
+	mk := func(gas uint64) {
+		ref.GasLimit = gas
+		var inner types.TxData
+		switch typ {
+		case refevm.TxLegacy:
+			inner = &types.LegacyTx{Nonce: nonce, GasPrice: feeCap, Gas: gas, To: to, Value: value, Data: data}
+		case refevm.TxAccess:
+			inner = &types.AccessListTx{ChainID: chainID, Nonce: nonce, GasPrice: feeCap, Gas: gas, To: to, Value: value, Data: data, AccessList: al}
+		case refevm.TxDynamic:
+			inner = &types.DynamicFeeTx{ChainID: chainID, Nonce: nonce, GasTipCap: tipCap, GasFeeCap: feeCap, Gas: gas, To: to, Value: value, Data: data, AccessList: al}
+		case refevm.TxBlob:
+			inner = &types.BlobTx{ChainID: uint256.NewInt(1), Nonce: nonce, GasTipCap: uint256.MustFromBig(tipCap), GasFeeCap: uint256.MustFromBig(feeCap),
+				Gas: gas, To: *to, Value: uint256.MustFromBig(value), Data: data, AccessList: al, BlobFeeCap: uint256.MustFromBig(blobFeeCap), BlobHashes: blobHashes}
+		case refevm.TxSetCode:
+			inner = &types.SetCodeTx{ChainID: uint256.NewInt(1), Nonce: nonce, GasTipCap: uint256.MustFromBig(tipCap), GasFeeCap: uint256.MustFromBig(feeCap),
+				Gas: gas, To: *to, Value: uint256.MustFromBig(value), Data: data, AccessList: al, AuthList: auths}
+		}
+		tx, err := types.SignNewTx(key, types.LatestSignerForChainID(chainID), inner)
+		if err != nil {
+			rt.Fatalf("VERIF-HARNESS-BUG: sign: %v", err)
+		}
+		c.txs[slot] = tx
+	}
+	mk(gas)
+	c.remake = append(c.remake, mk)
 	c.txNotes = append(c.txNotes, fmt.Sprintf("type=%d from=key%d to=%s gas=%d(%s; intrinsic=%d floor=%d) nonce=%d value=%v feeCap=%v tip=%v data=%d auths=%d blobs=%d %s",
 		typ, si, toNote, gas, gasNote, intrinsic, floor, nonce, value, feeCap, tipCap, len(data), len(auths), len(blobHashes), feeDefect))
 	c.class(fmt.Sprintf("tx:type%d", typ))
@@ -676,6 +722,80 @@ func (c *c26Case) drawTx(rt *rapid.T, d c26Domain, idx int, nonces []uint64, blo
 			nonces[k] += b
 		}
 	}
+}
+
+// c26Observer returns the code of the observer contract. Return data of a top-level
+// frame is not part of a transition's result, so values a generated program only
+// RETURNs (or REVERTs with) would go unobserved; the observer calls the program
+// with the transaction's calldata and value, then stores success+1 in slot 0, the
+// Keccak hash of the return data in slot 1 and emits the return data as LOG0. It keeps
+// 70000 gas back for that.
+//
+//	CALLDATASIZE PUSH0 PUSH0 CALLDATACOPY
+//	PUSH0 PUSH0 CALLDATASIZE PUSH0 CALLVALUE PUSH20 target PUSH3 70000 GAS SUB CALL
+//	PUSH1 1 ADD PUSH0 SSTORE
+//	RETURNDATASIZE PUSH0 PUSH0 RETURNDATACOPY
+//	RETURNDATASIZE PUSH0 KECCAK256 PUSH1 1 SSTORE
+//	RETURNDATASIZE PUSH0 LOG0 STOP
+func c26Observer(target [20]byte) []byte {
+	code := []byte{0x36, 0x5f, 0x5f, 0x37, 0x5f, 0x5f, 0x36, 0x5f, 0x34, 0x73}
+	code = append(code, target[:]...)
+	code = append(code, 0x62, 0x01, 0x11, 0x70, 0x5a, 0x03, 0xf1)
+	code = append(code, 0x60, 0x01, 0x01, 0x5f, 0x55)
+	code = append(code, 0x3d, 0x5f, 0x5f, 0x3e)
+	code = append(code, 0x3d, 0x5f, 0x20, 0x60, 0x01, 0x55)
+	code = append(code, 0x3d, 0x5f, 0xa0, 0x00)
+	return code
+}
+
+// c26DepositEmitter is a stand-in for the deposit contract: it emits its calldata as
+// the data of a log whose only topic is the DepositEvent signature hash.
+//
+//	CALLDATASIZE PUSH0 PUSH0 CALLDATACOPY PUSH32 topic CALLDATASIZE PUSH0 LOG1 STOP
+func c26DepositEmitter() []byte {
+	code := []byte{0x36, 0x5f, 0x5f, 0x37, 0x7f}
+	code = append(code, refevm.DepositEventTopic[:]...)
+	return append(code, 0x36, 0x5f, 0xa1, 0x00)
+}
+
+// c26DepositData draws DepositEvent data: mostly the canonical ABI layout of EIP-6110
+// (five dynamic byte strings of 48, 32, 8, 96 and 8 bytes), sometimes a wrong total
+// length, and - only where the finding is acknowledged - a right-length record with a
+// broken offset or size word.
+func c26DepositData(rt *rapid.T, c *c26Case) []byte {
+	data := make([]byte, 576)
+	put := func(off int, v uint64) { new(big.Int).SetUint64(v).FillBytes(data[off : off+32]) }
+	offs := []int{160, 256, 320, 384, 512}
+	sizes := []int{48, 32, 8, 96, 8}
+	fill := rapid.SliceOfN(rapid.Byte(), 192, 192).Draw(rt, "deposit-fields")
+	k := 0
+	for i := range offs {
+		put(32*i, uint64(offs[i]))
+		put(offs[i], uint64(sizes[i]))
+		copy(data[offs[i]+32:], fill[k:k+sizes[i]])
+		k += sizes[i]
+	}
+	switch ep.Uniform(rt, "deposit-defect", 10) {
+	case 0:
+		c.class("deposit:wrong-length")
+		return c26Pick(rt, "deposit-len", data[:575], append(data, 0), data[:32], nil)
+	case 1:
+		// EIP-6110 makes a block with a mis-laid-out DepositEvent invalid; geth only
+		// checks the total length. Generated only when not acknowledged as a known finding.
+		if !vs.Known("TestVerifC26Transition", "deposit-layout") && os.Getenv("VERIF_C26_NO_BAD_DEPOSIT") == "" {
+			c.class("deposit:bad-layout")
+			i := ep.Uniform(rt, "deposit-bad-word", 10)
+			if i < 5 {
+				put(32*i, uint64(offs[i])+32)
+			} else {
+				put(offs[i-5], uint64(sizes[i-5])+1)
+			}
+			return data
+		}
+		c.class("deposit:bad-layout-excluded")
+	}
+	c.class("deposit:canonical")
+	return data
 }
 
 func c26Weighted(rt *rapid.T, label string, w []int) int {
@@ -957,6 +1077,31 @@ func c26Property(st *vs.S, d c26Domain) func(rt *rapid.T) {
 		c := c26Draw(rt, d)
 		sc := st.Case()
 		ref, got, alloc, err := c26Run(c)
+		// Gas-boundary pass: learn from the reference how much gas one included
+		// transaction consumed and re-issue it with a limit right at that boundary
+		// (the last instruction, or the deepest frame, runs out of gas or just makes it).
+		if diffs := c26Compare(c, ref, got, alloc, err); len(diffs) == 0 && len(ref.Receipts) > 0 && ep.Uniform(rt, "boundary-pass", 3) == 0 {
+			rejected := map[int]bool{}
+			for _, r := range ref.Rejected {
+				rejected[r.Index] = true
+			}
+			var included []int
+			for i := range c.txs {
+				if !rejected[i] {
+					included = append(included, i)
+				}
+			}
+			k := ep.Uniform(rt, "boundary-tx", len(included))
+			rc := ref.Receipts[k]
+			p := rc.GasBeforeRefund
+			g := c26Pick(rt, "boundary-gas", p, p-1, p+1, p+p/63, p+p/63+1, p+p/64, rc.GasUsed, p-2300, p+2300)
+			if ti := included[k]; g >= c.txNeed[ti] && g <= 1<<24 {
+				c.remake[ti](g)
+				c.txNotes[ti] += fmt.Sprintf(" [gas re-issued at boundary: %d]", g)
+				c.class("tx:gas-boundary")
+				ref, got, alloc, err = c26Run(c)
+			}
+		}
 		for _, cl := range c.classes {
 			sc.Class(cl)
 		}
@@ -976,6 +1121,36 @@ func c26Property(st *vs.S, d c26Domain) func(rt *rapid.T) {
 		}
 		if len(ref.Requests) > 0 {
 			sc.Class("requests-nonempty")
+		}
+		for _, f := range []struct {
+			n    int
+			name string
+		}{{ref.Stats.Frames, "nested-frames"}, {ref.Stats.Creates, "creates"}, {ref.Stats.Precompiles, "precompile-runs"},
+			{ref.Stats.SelfDestructs, "selfdestruct"}, {ref.Stats.SelfDestructsFresh, "selfdestruct-same-tx"},
+			{ref.Stats.DelegationsSet, "7702-delegation-set"}, {ref.Stats.DelegatedRuns, "7702-delegated-run"},
+			{ref.Stats.Collisions, "create-collision"}, {ref.Stats.RefundedTxs, "refund"}, {ref.Stats.FlooredTxs, "7623-floor-applied"},
+			{ref.Stats.ValueCalls, "value-call"}, {ref.Stats.Logs, "logs"}, {ref.Stats.Reverts, "frame-reverted"}} {
+			if f.n > 0 {
+				sc.Class("did:" + f.name)
+			}
+		}
+		switch {
+		case ref.Stats.MaxDepth >= 10:
+			sc.Class("depth:10+")
+		case ref.Stats.MaxDepth >= 2:
+			sc.Class("depth:2-9")
+		default:
+			sc.Classf("depth:%d", ref.Stats.MaxDepth)
+		}
+		switch {
+		case ref.Stats.Steps >= 100000:
+			sc.Class("steps:100k+")
+		case ref.Stats.Steps >= 1000:
+			sc.Class("steps:1k-100k")
+		case ref.Stats.Steps >= 20:
+			sc.Class("steps:20-1k")
+		default:
+			sc.Class("steps:<20")
 		}
 		nontrivial := ref.Stats.Frames >= 1 && ref.Stats.Steps >= 20 && ref.Stats.StateWrites >= 1
 		sc.NonTrivial(nontrivial, c.descriptor())
